@@ -72,6 +72,7 @@ class RealAlg:
         return z3.If(t < lo, z3.IntVal(lo), z3.If(t > hi, z3.IntVal(hi), t))
     def minf(self, a, b): return Fl(z3.If(a.v <= b.v, a.v, b.v))
     def maxf(self, a, b): return Fl(z3.If(a.v >= b.v, a.v, b.v))
+    def clampf(self, x, lo, hi): return Fl(z3.If(x.v < lo.v, lo.v, z3.If(x.v > hi.v, hi.v, x.v)))
     def absf(self, a): return Fl(z3.If(a.v >= 0, a.v, -a.v))
     def call1(self, n, a):
         t = self.uf[n](a.v); self.used.append((n, (a.v,), t))
@@ -143,6 +144,9 @@ class FP64Alg:
     def is_finite(self, a): return z3.And(z3.Not(z3.fpIsNaN(a.v)), z3.Not(z3.fpIsInf(a.v)))
     def minf(self, a, b): return Fl(z3.fpMin(a.v, b.v))
     def maxf(self, a, b): return Fl(z3.fpMax(a.v, b.v))
+    def clampf(self, x, lo, hi):
+        # f64::clamp: `if x < min {min} else if x > max {max} else {x}` - a NaN stays a NaN
+        return Fl(z3.If(z3.fpLT(x.v, lo.v), lo.v, z3.If(z3.fpGT(x.v, hi.v), hi.v, x.v)))
     def absf(self, a): return Fl(z3.fpAbs(a.v))
     def from_int(self, i):
         return Fl(z3.fpToFP(self.rm, z3.ToReal(i) if z3.is_expr(i) else z3.RealVal(i), self.S))
@@ -158,7 +162,7 @@ class FPUAlg(FP64Alg):
     """FP64 values with *uninterpreted* arithmetic: + - * / fma return arbitrary doubles (congruent: the same
     expression is the same value), comparisons / is_finite / is_nan keep their IEEE meaning.  The only IEEE facts
     used are emitted as lemma instances: a finite sum/difference has finite operands; x*c, c finite non-zero:
-    finite product => finite x.  A sound over-approximation for properties that must hold for every value."""
+    finite product => finite x; a NaN operand gives a NaN result; sqrt of a NaN or negative number is NaN.  A sound over-approximation for properties that must hold for every value."""
     name = 'FP64u'
     def __init__(self):
         FP64Alg.__init__(self); S = self.S
@@ -167,14 +171,30 @@ class FPUAlg(FP64Alg):
         self.lemmas = []
     def _fin(self, t): return z3.And(z3.Not(z3.fpIsNaN(t)), z3.Not(z3.fpIsInf(t)))
     def add(self, a, b):
-        t = self.f['add'](a.v, b.v); self.lemmas.append(z3.Implies(self._fin(t), z3.And(self._fin(a.v), self._fin(b.v)))); return Fl(t)
+        t = self.f['add'](a.v, b.v); self._nan(t, a.v, b.v); self.lemmas.append(z3.Implies(self._fin(t), z3.And(self._fin(a.v), self._fin(b.v)))); return Fl(t)
     def sub(self, a, b):
-        t = self.f['sub'](a.v, b.v); self.lemmas.append(z3.Implies(self._fin(t), z3.And(self._fin(a.v), self._fin(b.v)))); return Fl(t)
-    def mul(self, a, b): return Fl(self.f['mul'](a.v, b.v))
-    def div(self, a, b): return Fl(self.f['div'](a.v, b.v))
+        t = self.f['sub'](a.v, b.v); self._nan(t, a.v, b.v); self.lemmas.append(z3.Implies(self._fin(t), z3.And(self._fin(a.v), self._fin(b.v)))); return Fl(t)
+    def _nan(self, t, *ops): self.lemmas.append(z3.Implies(z3.Or(*[z3.fpIsNaN(o) for o in ops]), z3.fpIsNaN(t)))
+    def mul(self, a, b):
+        t = self.f['mul'](a.v, b.v); self._nan(t, a.v, b.v); return Fl(t)
+    def div(self, a, b):
+        t = self.f['div'](a.v, b.v); self._nan(t, a.v, b.v)
+        if z3.is_fp_value(a.v) and str(a.v) == '1':
+            lo, hi = z3.FPVal(1e-20, self.S), z3.FPVal(1e20, self.S); lo2, hi2 = z3.FPVal(0.99e-20, self.S), z3.FPVal(1.01e20, self.S)
+            pos = z3.And(self._fin(t), z3.fpGT(t, z3.FPVal(0.0, self.S)))
+            self.lemmas.append(z3.Implies(z3.And(z3.fpGEQ(b.v, lo), z3.fpLEQ(b.v, hi)), z3.And(pos, z3.fpGEQ(t, lo2), z3.fpLEQ(t, hi2))))
+            self.lemmas.append(z3.Implies(z3.And(z3.fpGEQ(b.v, lo2), z3.fpLEQ(b.v, hi2)), pos))
+        return Fl(t)
     def fma(self, a, b, c): return Fl(self.f3(a.v, b.v, c.v))
     def absf(self, a): return Fl(z3.fpAbs(a.v))
     def neg(self, a): return Fl(z3.fpNeg(a.v))
+    def call1(self, n, a):
+        if n == 'sqrt':
+            f = z3.Function('u_sqrt', self.S, self.S); t = f(a.v)
+            self.lemmas.append(z3.Implies(z3.And(self._fin(a.v), z3.fpGT(a.v, z3.FPVal(0.0, self.S))), z3.And(self._fin(t), z3.fpGT(t, z3.FPVal(0.0, self.S)))))
+            self.lemmas.append(z3.Implies(z3.Or(z3.fpIsNaN(a.v), z3.fpLT(a.v, z3.FPVal(0.0, self.S))), z3.fpIsNaN(t)))
+            return Fl(t)
+        return FP64Alg.call1(self, n, a)
     @staticmethod
     def prove_lemmas():
         """discharge the IEEE facts behind the lemma instances with bit-precise FP semantics"""
@@ -182,6 +202,17 @@ class FPUAlg(FP64Alg):
         fin = lambda t: z3.And(z3.Not(z3.fpIsNaN(t)), z3.Not(z3.fpIsInf(t)))
         for nm, t in (('add', z3.fpAdd(rm, a, b)), ('sub', z3.fpSub(rm, a, b))):
             s = z3.Solver(); s.set('timeout', 120000); s.add(fin(t), z3.Not(z3.And(fin(a), fin(b)))); out.append((nm, s.check() == z3.unsat))
+        return out
+    @staticmethod
+    def prove_sqrt_recip_lemmas():
+        S = z3.Float64(); x = z3.FP('x', S); rm = z3.RNE(); out = []
+        fin = lambda t: z3.And(z3.Not(z3.fpIsNaN(t)), z3.Not(z3.fpIsInf(t))); pos = lambda t: z3.fpGT(t, z3.FPVal(0.0, S))
+        s = z3.Solver(); s.set('timeout', 300000); s.add(fin(x), pos(x), z3.Not(z3.And(fin(z3.fpSqrt(rm, x)), pos(z3.fpSqrt(rm, x))))); out.append(('x finite, x > 0 => sqrt(x) finite, > 0', s.check() == z3.unsat))
+        r = z3.fpDiv(rm, z3.FPVal(1.0, S), x)
+        s = z3.Solver(); s.set('timeout', 300000); s.add(z3.fpGEQ(x, z3.FPVal(1e-20, S)), z3.fpLEQ(x, z3.FPVal(1e20, S)), z3.Not(z3.And(fin(r), pos(r), z3.fpGEQ(r, z3.FPVal(0.99e-20, S)), z3.fpLEQ(r, z3.FPVal(1.01e20, S)))))
+        out.append(('1e-20 <= x <= 1e20 => 1/x finite, > 0, within [0.99e-20, 1.01e20]', s.check() == z3.unsat))
+        s = z3.Solver(); s.set('timeout', 300000); s.add(z3.fpGEQ(x, z3.FPVal(0.99e-20, S)), z3.fpLEQ(x, z3.FPVal(1.01e20, S)), z3.Not(z3.And(fin(r), pos(r)))); out.append(('0.99e-20 <= x <= 1.01e20 => 1/x finite, > 0', s.check() == z3.unsat))
+        s = z3.Solver(); s.set('timeout', 300000); t = z3.fpSqrt(rm, x); s.add(z3.Or(z3.fpIsNaN(x), z3.fpLT(x, z3.FPVal(0.0, S))), z3.Not(z3.fpIsNaN(t))); out.append(('x NaN or x < 0 => sqrt(x) NaN', s.check() == z3.unsat))
         return out
 
 def _fma(a, b, c):
@@ -240,6 +271,7 @@ class ConcAlg:
         if math.isnan(b.v): return a
         return Fl(max(a.v, b.v))
     def absf(self, a): return Fl(abs(a.v))
+    def clampf(self, x, lo, hi): return lo if x.v < lo.v else (hi if x.v > hi.v else x)
     def ite(self, c, a, b): return a if c else b
     def call1(self, n, a):
         x = a.v
